@@ -76,6 +76,7 @@ type countingReader struct {
 	src      io.Reader
 	good     int // bytes delivered before failing; <0: never fail
 	chunk    int
+	withData bool // deliver the last good bytes together with the error (io.Reader allows n > 0 with err != nil)
 	consumed int
 	calls    int
 }
@@ -100,6 +101,9 @@ func (c *countingReader) Read(p []byte) (int, error) {
 	}
 	io.ReadFull(c.src, p[:n])
 	c.consumed += n
+	if c.withData && c.good == 0 {
+		return n, errInjected
+	}
 	return n, nil
 }
 
@@ -108,13 +112,14 @@ func TestGenerateKeyEntropy(t *testing.T) {
 	rt.Check(t, 20, 2000, func(t *rapid.T) {
 		seed := gen.Seed().Draw(t, "entropy")
 		for p := -1; p <= 33; p++ {
-			for _, chunk := range []int{0, 1, 5, 32} {
-				a := &countingReader{src: rt.NewDRBG(seed), good: p, chunk: chunk}
-				b := &countingReader{src: rt.NewDRBG(seed), good: p, chunk: chunk}
+			for ci, chunk := range []int{0, 1, 5, 32, 0, 7} {
+				withData := ci >= 4 // two more variants: the error arrives together with the last bytes
+				a := &countingReader{src: rt.NewDRBG(seed), good: p, chunk: chunk, withData: withData}
+				b := &countingReader{src: rt.NewDRBG(seed), good: p, chunk: chunk, withData: withData}
 				ppub, ppriv, perr := pated.GenerateKey(a)
 				spub, spriv, serr := stded.GenerateKey(b)
 				s.Eval()
-				s.Nontrivial(seed, []byte{byte(p + 1), byte(chunk)})
+				s.Nontrivial(seed, []byte{byte(p + 1), byte(chunk), byte(ci)})
 				if (perr == nil) != (serr == nil) || (perr != nil && !errors.Is(perr, serr) && perr.Error() != serr.Error()) {
 					rt.Fail(t, "C14/generatekey-error", "reader failing after %d bytes (chunk %d): fork error %v, crypto/ed25519 error %v", p, chunk, perr, serr)
 					return
